@@ -34,9 +34,9 @@ type ReusableWorkflowMetadataInput struct {
 // UnmarshalYAML implements yaml.Unmarshaler.
 func (input *ReusableWorkflowMetadataInput) UnmarshalYAML(n *yaml.Node) error {
 	type metadata struct {
-		Required bool    `yaml:"required"`
-		Default  *string `yaml:"default"`
-		Type     string  `yaml:"type"`
+		Required yaml.Node `yaml:"required"`
+		Default  yaml.Node `yaml:"default"`
+		Type     string    `yaml:"type"`
 	}
 
 	var md metadata
@@ -44,7 +44,10 @@ func (input *ReusableWorkflowMetadataInput) UnmarshalYAML(n *yaml.Node) error {
 		return err
 	}
 
-	input.Required = md.Required && md.Default == nil
+	// This must agree with the metadata built from the AST in WriteWorkflowCallEvent: an input is
+	// required when `required` is statically true and no `default` key exists (`default: null`
+	// counts as a default value there). `required: ${{ ... }}` cannot be evaluated statically.
+	input.Required = yamlNodeIsTrue(&md.Required) && md.Default.Kind == 0
 	switch md.Type {
 	case "boolean":
 		input.Type = BoolType{}
@@ -86,6 +89,27 @@ func (inputs *ReusableWorkflowMetadataInputs) UnmarshalYAML(n *yaml.Node) error 
 	}
 
 	*inputs = md
+	return nil
+}
+
+func yamlNodeIsTrue(n *yaml.Node) bool {
+	var b bool
+	if n.Kind != yaml.ScalarNode || n.Decode(&b) != nil {
+		return false
+	}
+	return b
+}
+
+// UnmarshalYAML implements yaml.Unmarshaler.
+func (secret *ReusableWorkflowMetadataSecret) UnmarshalYAML(n *yaml.Node) error {
+	type metadata struct {
+		Required yaml.Node `yaml:"required"`
+	}
+	var md metadata
+	if err := n.Decode(&md); err != nil {
+		return err
+	}
+	secret.Required = yamlNodeIsTrue(&md.Required)
 	return nil
 }
 
